@@ -74,6 +74,23 @@ pub fn f64_infinity() -> (r: f64)                 // rule R4: f64::INFINITY
     ensures r == spec_f64_infinity()
 { f64::INFINITY }
 
+// f64 library methods: deterministic but otherwise UNINTERPRETED (so that code using them is accepted by the front end and
+// any obligation that depends on their value fails instead of the unit becoming undecided)
+pub uninterp spec fn f64_fn1(name: int, x: f64) -> f64;
+pub uninterp spec fn f64_fn2(name: int, x: f64, y: f64) -> f64;
+pub uninterp spec fn f64_pred(name: int, x: f64) -> bool;
+pub assume_specification [f64::is_finite] (x: f64) -> (r: bool) ensures r == f64_pred(1, x);
+pub assume_specification [f64::is_nan] (x: f64) -> (r: bool) ensures r == f64_pred(2, x);
+pub assume_specification [f64::is_infinite] (x: f64) -> (r: bool) ensures r == f64_pred(3, x);
+pub assume_specification [f64::abs] (x: f64) -> (r: f64) ensures r == f64_fn1(1, x);
+pub assume_specification [f64::sqrt] (x: f64) -> (r: f64) ensures r == f64_fn1(2, x);
+pub assume_specification [f64::floor] (x: f64) -> (r: f64) ensures r == f64_fn1(3, x);
+pub assume_specification [f64::ceil] (x: f64) -> (r: f64) ensures r == f64_fn1(4, x);
+pub assume_specification [f64::round] (x: f64) -> (r: f64) ensures r == f64_fn1(5, x);
+pub assume_specification [f64::min] (x: f64, y: f64) -> (r: f64) ensures r == f64_fn2(1, x, y);
+pub assume_specification [f64::max] (x: f64, y: f64) -> (r: f64) ensures r == f64_fn2(2, x, y);
+pub assume_specification [f64::powi] (x: f64, n: i32) -> (r: f64) ensures r == f64_fn2(3, x, spec_usize_to_f64(n as usize));
+
 pub mod fax {
 use super::*;
 // EXACT set: IEEE-754 truths (each audited by the Layer-0 Kani/SMT harness of the same name).
